@@ -1346,6 +1346,9 @@ func (g *G) callBuiltin(b *ssa.Builtin, args []Value, pos token.Pos, call *ssa.C
 			if x == nil {
 				return mkInt(0)
 			}
+			// the number of queued elements is shared state that other goroutines change: reading it is a visible
+			// operation (another goroutine's send or receive may come first)
+			g.schedPoint("chanlen")
 			return mkInt(uint64(len(x.buf)))
 		}
 	case "cap":
